@@ -189,6 +189,22 @@ cfg["C09"] = {
 }
 cfg["C07"]["runs"].append({"dir": COB, "inline_go": True, "quick": P("VerifMerge", "p=2,n=2", "p=1,n=2"), "thorough": P("VerifMerge", "p=2,n=2", "p=1,n=2", "p=3,n=2"), "samples": 2})
 
+cfg["C16"] = {
+    "title": "The recovery log replays exactly the uncommitted events", "design_ref": "DESIGN.md §4 C16",
+    "runs": [{"dir": "wal", "quick": P("VerifHydro", "ops=3", "ops=4"), "thorough": P("VerifHydro", "ops=3", "ops=4", "ops=5"), "samples": 4}],
+    "bounds": "operation sequences of length <= 4 (thorough 5) over {log type a, log type b, log an unregistered type, commit the k-th logged event, recover}, every handler outcome symbolic per call (Decode error, Check error, Check not-needed, Handle error/ok)",
+    "outside": "persistence and sequence monotonicity across process restarts (bbolt/Lithium is I/O), concurrent loggers, the key codec for arbitrary 64-bit ids (ids here are the concrete sequence numbers 1..n handed out by the model store)",
+    "assumptions": [common_stubs + "; kv.KV: ordered in-memory table with a sequence counter (Scan returns entries in key order through a model channel); haxmap: insertion-ordered table; encoding/json: opaque deep-copy token"],
+}
+cfg["C31"] = {
+    "title": "Engine settings faithfully enforce allocated resources", "design_ref": "DESIGN.md §4 C31",
+    "runs": [{"dir": "engine/docker", "quick": P("VerifResourceSetting", "cores=2,remap=0", "cores=2,remap=1") + P("VerifUpdateResource", "cores=2"),
+              "thorough": P("VerifResourceSetting", "cores=2,remap=0", "cores=2,remap=1", "cores=3,remap=0", "cores=3,remap=1") + P("VerifUpdateResource", "cores=2", "cores=3"), "samples": 3}],
+    "bounds": "CPU amounts on the 1/64-core grid in [0,8] cores (exact binary fractions) plus the special values -1 (unlimited) and 0; memory symbolic in [0,2^50]; cpu map = any subset of 2-3 cores with symbolic pieces; NUMA node in {none, 0, 1}; remap flag; update path with a model docker client (Info, ContainerUpdate)",
+    "outside": "decimal CPU amounts off the 1/64 grid (0.29 cores * 100000 truncates to 28999 microseconds: off by one period unit, accepted by the property's tolerance); the create path beyond makeResourceSetting and the Docker API itself",
+    "assumptions": [common_stubs + "; docker client: in-harness model capturing the UpdateConfig; mapstructure.Decode: structural model; math.Modf/Round on grid floats: exact integer formulas"],
+}
+
 meta = {
     "C01": "Every feasible path of strategy.Deploy and the five real strategy functions (real container/heap and sort SSA) is executed with capacities, counts, need, limit, usage and rate symbolic; on each path z3 proves the plan assertions (only candidates, 0<=d<=capacity, exact totals, EACH/FILL selection sizes, AUTO node limit) for all values inside the bounds, or returns a model that is replayed natively. Bounded by node count and, for AUTO/GLOBAL, by need.",
     "C02": "Same exploration; on every path z3 proves err==nil <=> a harness-side reference feasibility predicate (saturating sums, no wrap) and that a refusal returns no plan.",
@@ -203,6 +219,8 @@ meta = {
     "C09": "cobalt.Manager.GetNodesDeployCapacity and mergeCapacity are executed with symbolic plugin answers and a symbolic merge order; z3 proves per path that the offered set is the intersection, capacity the minimum, usage/rate the weighted average (as exact fractions) and that two merge orders give identical results.",
     "C10": "The real ReallocResource / RemoveWorkload / DissociateWorkload (with the real utils.Txn, lock wrappers and node selection) are executed against an abstract ledger world with a symbolic single fault; z3 proves usage = sum of recorded workloads after every outcome, for all symbolic amounts.",
     "C11": "Same executions; when (a part of) the operation reports failure, z3 proves that records, amounts, containers and usage equal the pre-state for every fault position.",
+    "C16": "wal.Hydro.Log/Recover/recover/decodeEvent run from real SSA over a model KV; operation sequences and all handler outcomes are symbolic; z3-decided paths prove handlers run only for logged-and-uncommitted events, in logging order, at most once per recovery, removal iff handled or unnecessary, ids strictly increasing.",
+    "C31": "docker.makeResourceSetting and (*Engine).VirtualizationUpdateResource are executed with symbolic CPU (1/64 grid), memory, cpu map and NUMA node; z3 proves cpuset = exactly the allocated cores, cpuset-mems = NUMA node, quota -1 when bound, shares = round(1024*frac), quota = cpu*period when unbound, memory caps.",
     "C17": "utils.Txn and utils.PCR are executed for every outcome vector and caller-cancellation point (symbolic Booleans / choices, complete finite space); z3 decides each branch; assertions: then iff cond ok, rollback exactly once iff a step failed with the right flag, first failure returned, rollback context not cancelled by the caller.",
     "C20": "The lock wrappers (withNodesPodLocked, withNodeOperationLocked, withWorkloadsLocked) and the sequential ReallocResource are executed over symbolic include/id lists and pod assignments with recording locks; the acquisition trace must be strictly ascending within pod locks and within workload locks, pod before workload, and everything released.",
     "C21": "Calcium.filterNodes (with the real utils.Map/sort code) is executed over symbolic include/exclude lists and store orders; the result must contain exactly the wanted distinct nodes, each once.",
